@@ -103,6 +103,9 @@ pub fn node_d<'s, I: Kind<'s>, R: Er<'s, I>>(this: &mut Bld<'s, I, R>, g: &G) ->
                 Wrap::EitherL => either::Either::<_, BP<'s, I, R>>::Left(p).cb(),
                 Wrap::EitherR => either::Either::<BP<'s, I, R>, _>::Right(p).cb(),
                 Wrap::Cloned => p.clone().cb(),
+                // value-building formulation of the extension parser below: the equal custom parser
+                Wrap::ExtOf if this.explicit => custom::<_, I, Val, Ex<R>>(move |inp| inp.parse(&p)).cb(),
+                Wrap::ExtOf => chumsky::extension::v1::Ext(ExtOf::<I, R>(p)).cb(),
             }
         }
         Rec(id, body) => match this.rec_style {
